@@ -143,7 +143,7 @@ fn main() {
             let p = project(&root, &format!("viz_{}_{}", mode, lname), Some(conf_plain));
             fs::write(p.join("src-tauri/src/lib.rs"), lib).map_err(|e| e.to_string())?;
             let pp = p.join("src-tauri");
-            let strip = |m: BTreeMap<String, Vec<u8>>| -> BTreeMap<String, String> { m.into_iter().map(|(k, v)| (k, String::from_utf8_lossy(&v).lines().filter(|l| !l.contains("Generated at:")).collect::<Vec<_>>().join("\n"))).collect() };
+            let strip = |m: BTreeMap<String, Vec<u8>>| -> BTreeMap<String, String> { m.into_iter().map(|(k, v)| (k, String::from_utf8_lossy(&v).lines().filter(|l| !has_timestamp(l)).collect::<Vec<_>>().join("\n"))).collect() };
             let mut outs = Vec::new();
             for (i, extra) in [vec![], vec!["--visualize-deps"], vec!["--verbose"], vec!["--verbose", "--visualize-deps"]].iter().enumerate() {
                 let gp = p.join(format!("gen{}", i));
@@ -284,7 +284,7 @@ fn main() {
                 if !LIB_EDIT.contains(from) { return Err(format!("UNPARSED: the corpus source does not contain `{}`", from)); }
                 let p = project(&root, &format!("inc_{}_{}", mode, i), Some(conf_plain));
                 let pp = p.join("src-tauri"); let gp = p.join("out"); let fp = p.join("fresh");
-                let strip = |m: BTreeMap<String, Vec<u8>>| -> BTreeMap<String, String> { m.into_iter().filter(|(k, _)| k != ".typecache").map(|(k, v)| (k, String::from_utf8_lossy(&v).lines().filter(|l| !l.contains("Generated at:")).collect::<Vec<_>>().join("\n"))).collect() };
+                let strip = |m: BTreeMap<String, Vec<u8>>| -> BTreeMap<String, String> { m.into_iter().filter(|(k, _)| k != ".typecache").map(|(k, v)| (k, String::from_utf8_lossy(&v).lines().filter(|l| !has_timestamp(l)).collect::<Vec<_>>().join("\n"))).collect() };
                 fs::write(pp.join("src/lib.rs"), LIB_EDIT).map_err(|e| e.to_string())?;
                 let (code, text) = run(&cli, &p, &["generate", "--project-path", pp.to_str().unwrap(), "--output-path", gp.to_str().unwrap(), "--validation", mode])?;
                 if code != 0 { return Err(format!("the first run ended with status {}: {}", code, text.chars().take(200).collect::<String>())); }
